@@ -6,6 +6,7 @@
 -/
 import BtcVerif.Proofs.Wif
 import BtcVerif.Proofs.WifXKey
+import BtcVerif.Proofs.AddressRef
 
 namespace BtcVerif.Props.C10
 open BtcVerif BtcVerif.Model
@@ -76,6 +77,41 @@ theorem xkey_enc_dec_canonical (ck : Bytes → Bytes) (pubOk : Bytes → Bool) (
 theorem xkey_no_panic (ck : Bytes → Bytes) (pubOk : Bytes → Bool) (s : Bytes) :
     XKey.deserialize ck pubOk s ≠ .panic :=
   Proofs.XKey.deserialize_ne_panic ck pubOk s
+
+/-! ### the produced strings equal those of an independent implementation -/
+
+theorem be_eq_beBytes : ∀ k n, Spec.Address.be k n = beBytes k n := by
+  intro k
+  induction k with
+  | zero => intro n; rfl
+  | succ k ih =>
+    intro n
+    simp only [Spec.Address.be, ih, beBytes, leBytes, List.reverse_cons]
+
+/-- WIF strings equal the reference encoding `Base58Check(version ‖ key ‖ [01])` -/
+theorem wif_eq_reference (ck : Bytes → Bytes) (k : Bytes) (hk : k.length = 32) (v : Nat) (hv : v < 256)
+    (c : Bool) : Wif.encode ck k v c = .ok (Spec.Address.wif ck v k c) := by
+  have hg : Gen.Guards.wif_encode_0 (privkey_isnil := false) (len_privkey := k.length) = false := by
+    simp [Gen.Guards.wif_encode_0, hk]
+  unfold Wif.encode Spec.Address.wif
+  rw [hg]
+  simp only [Bool.false_eq_true, if_false, Gen.Guards.wif_encode_1, Base58Check.encodeVersion,
+    Proofs.Address.versionBytes_small (show v ≤ 255 by omega), Proofs.Address.base58check_eq_spec]
+  cases c <;> simp
+
+/-- extended-key strings equal the BIP32 reference serialization (with the depth-0 normalisation
+    of the library made explicit) -/
+theorem xkey_eq_reference (ck : Bytes → Bytes) (key chainCode fp : Bytes) (depth index version : Nat)
+    (isPrivate : Bool) :
+    XKey.serialize ck key chainCode fp depth index version isPrivate =
+      Spec.Address.xkey ck version depth (if depth = 0 then [0, 0, 0, 0] else fp)
+        (if depth = 0 then 0 else index) chainCode ((if isPrivate then [0] else []) ++ key) := by
+  rw [Proofs.XKey.serialize_eq]
+  unfold Spec.Address.xkey
+  rw [Proofs.Address.base58check_eq_spec, be_eq_beBytes, be_eq_beBytes]
+  have : XKey.ser32 0 = [0, 0, 0, 0] := by decide
+  simp only [XKey.ser32, this] at *
+  by_cases hd : depth = 0 <;> simp [hd, XKey.ser32] <;> rfl
 
 /-- the well-formedness hypothesis is satisfiable (a private and a public key) -/
 example : Proofs.XKey.WF (fun _ => true) (List.replicate 32 1) (List.replicate 32 2) [1, 2, 3, 4] 3 7
